@@ -106,7 +106,18 @@ def build(desc, r, fr):
         return abs(build(desc[1], r, fr))
     if k == "call":
         return fr.g(build(desc[1], r, fr), build(desc[2], r, fr))
+    if k in ("floor", "ceil", "trunc"):
+        import math
+        return getattr(math, k)(build(desc[1], r, fr))
+    if k == "inv":
+        return ~build(desc[1], r, fr)
+    if k == "pos":
+        return +build(desc[1], r, fr)
+    if k == "round2":
+        return round(build(desc[1], r, fr), desc[2])
     x, y = build(desc[1], r, fr), build(desc[2], r, fr)
+    if k == "pow":
+        return x ** y
     if k == "add":
         return x + y
     if k == "sub":
@@ -129,7 +140,18 @@ def ev(desc, d, g):
         return abs(ev(desc[1], d, g))
     if k == "call":
         return g(ev(desc[1], d, g), ev(desc[2], d, g))
+    if k in ("floor", "ceil", "trunc"):
+        import math
+        return getattr(math, k)(ev(desc[1], d, g))
+    if k == "inv":
+        return ~ev(desc[1], d, g)
+    if k == "pos":
+        return +ev(desc[1], d, g)
+    if k == "round2":
+        return round(ev(desc[1], d, g), desc[2])
     x, y = ev(desc[1], d, g), ev(desc[2], d, g)
+    if k == "pow":
+        return x ** y
     if k == "add":
         return x + y
     if k == "sub":
@@ -197,8 +219,12 @@ def show(desc):
         return desc[1]
     if k == "const":
         return str(desc[1])
-    if k in ("neg", "abs"):
+    if k in ("neg", "abs", "floor", "ceil", "trunc", "inv", "pos"):
         return f"{k}({show(desc[1])})"
+    if k == "round2":
+        return f"round({show(desc[1])},{desc[2]})"
+    if k == "pow":
+        return f"({show(desc[1])} ** {show(desc[2])})"
     if k == "call":
         return f"g({show(desc[1])},{show(desc[2])})"
     return f"({show(desc[1])} {dict(add='+', sub='-', mul='*')[k]} {show(desc[2])})"
